@@ -45,6 +45,11 @@ func TestRequests(t *testing.T) {
 		c01x.RunBatch(u, "replay", specs, "RunFuzz", false)
 		return
 	}
+	if shard, _ := vk.Shard(); shard == 0 {
+		// always-run document: every integer format as a query and as a header parameter
+		m := c01x.Meta{Doc: c01x.IntegerFormatsDoc(), TimeFormat: "date-time"}
+		c01x.RunBatch(u, "intformats", []c01x.SpecCase{{Meta: m, Config: c01x.Configs[0]}, {Meta: m, Config: c01x.Configs[3]}}, "RunFuzz", false)
+	}
 	n := 0
 	vk.Rapid(u, vk.N(4, 120), nil, c01x.DrawBatch, func(b c01x.BatchCase) *vk.Finding {
 		n++
